@@ -140,6 +140,8 @@ class HashTable:
         return self.dtype(mod) if mod <= np.iinfo(keys.dtype).max else mod
 
     def _get_hash(self, keys):
+        if isinstance(keys, int):  # a Python int query is never narrowed to the key type (the default modulus has the key dtype)
+            return keys % int(self._mod)
         if isinstance(keys, (np.ndarray, np.generic)) and keys.dtype.kind in "iu" and self._mod > np.iinfo(keys.dtype).max:
             keys = keys.astype(np.int64)  # a modulus beyond the range of a narrow key type is still a modulus
         return keys % self._mod
